@@ -226,9 +226,15 @@ func (o *Obs) Event(kind string) Ev {
 	return Ev{"e": kind, "err": o.Err, "recovered": o.Recovered, "kv": kv, "count": o.Count, "has": has, "items": items}
 }
 
-// ReadBack reads everything through the public API.
-func ReadBack(db *pogreb.DB, universe map[string][]byte) *Obs {
-	o := &Obs{KV: map[string]string{}}
+// ReadBack reads everything through the public API. A panic of the code under test is an
+// observation (reported in Err), not a failure of the harness.
+func ReadBack(db *pogreb.DB, universe map[string][]byte) (o *Obs) {
+	o = &Obs{KV: map[string]string{}}
+	defer func() {
+		if p := recover(); p != nil {
+			o.Err = fmt.Sprintf("panic: %v", p)
+		}
+	}()
 	toks := make([]string, 0, len(universe))
 	for t := range universe {
 		toks = append(toks, t)
@@ -316,6 +322,16 @@ func (s *Sess) Open() error {
 	db, o := OpenObserved(s.Cfg, s.Root, s.Dir, s.Universe)
 	s.DB = db
 	s.R.Emit(o.Event("reopened"))
+	if db != nil {
+		// information for the reader of a recording (not judged): the shape of the reloaded index
+		if d, err := db.VerifIndexDump(); err == nil {
+			ov := 0
+			for _, c := range d.Chains {
+				ov += len(c) - 1
+			}
+			s.R.Emit(Ev{"e": "note", "what": "index", "level": int(d.Level), "split": int(d.Split), "buckets": int(d.NumBuckets), "keys": int(d.NumKeys), "overflow": ov, "free": len(d.Free)})
+		}
+	}
 	if o.Err != "" {
 		return fmt.Errorf("%s", o.Err)
 	}
@@ -341,6 +357,27 @@ func (s *Sess) use(k []byte) string {
 // Do executes one API call with inv/ret events. It returns the call's error.
 func (s *Sess) Do(o Op) error {
 	db := s.DB
+	if o.Op == "palign" {
+		// a put whose record ends N bytes before a sector boundary of the current segment, so that the
+		// NEXT record straddles the boundary with only N bytes (a partial header when N < 6) in front of it
+		size := int64(512)
+		for _, sg := range db.VerifSegments() {
+			if sg.Current {
+				size = sg.Size
+			}
+		}
+		k := o.key()
+		base := size + int64(10+len(k))
+		end := (base/512 + 1) * 512
+		vl := end - int64(o.N) - base
+		if vl < 0 {
+			vl += 512
+		}
+		o = Op{Op: "put", T: o.T, K: o.K, KL: o.KL, V: o.V, VL: int(vl)}
+		if vl == 0 {
+			o.V = ""
+		}
+	}
 	inv := Ev{"e": "inv", "t": o.T, "op": o.Op}
 	var key, val []byte
 	switch o.Op {
